@@ -13,6 +13,7 @@ import (
 	"encoding/json"
 	"fmt"
 	"os"
+	"strings"
 
 	"github.com/RoaringBitmap/roaring"
 	"github.com/akrennmair/updog"
@@ -114,13 +115,13 @@ type mirrorSchema struct {
 }
 
 // applyDamage edits the index file at key/value level.
-func applyDamage(path string, kinds []string) error {
+func applyDamage(path string, kinds []string) (applied []string, err error) {
 	db, err := bbolt.Open(path, 0o644, nil)
 	if err != nil {
-		return err
+		return nil, err
 	}
 	defer db.Close()
-	return db.Update(func(tx *bbolt.Tx) error {
+	err = db.Update(func(tx *bbolt.Tx) error {
 		for _, k := range kinds {
 			b := tx.Bucket([]byte("data"))
 			if k == "del-bucket" {
@@ -128,6 +129,7 @@ func applyDamage(path string, kinds []string) error {
 					if err := tx.DeleteBucket([]byte("data")); err != nil {
 						return err
 					}
+					applied = append(applied, k)
 				}
 				continue
 			}
@@ -143,51 +145,81 @@ func applyDamage(path string, kinds []string) error {
 				}
 				return nil
 			}
+			// a damage only counts as applied if the part it damages exists in this file
+			// format (a tree that stores its header under other keys is not accused of
+			// accepting a file we did not actually damage)
 			var err error
+			did := false
+			hasS, hasI := b.Get([]byte{'S'}) != nil, b.Get([]byte{'I'}) != nil
 			switch k {
 			case "del-S":
-				err = b.Delete([]byte{'S'})
+				if hasS {
+					err, did = b.Delete([]byte{'S'}), true
+				}
 			case "S-garbage":
-				err = b.Put([]byte{'S'}, []byte{0xff, 0x03, 0x00, 0x99, 0xfe, 0x17, 0x80, 0x01})
+				if hasS {
+					err, did = b.Put([]byte{'S'}, []byte{0xff, 0x03, 0x00, 0x99, 0xfe, 0x17, 0x80, 0x01}), true
+				}
 			case "S-trunc":
 				if v := b.Get([]byte{'S'}); len(v) > 1 {
-					err = b.Put([]byte{'S'}, append([]byte(nil), v[:len(v)/2]...))
+					err, did = b.Put([]byte{'S'}, append([]byte(nil), v[:len(v)/2]...)), true
 				}
 			case "S-empty":
-				err = b.Put([]byte{'S'}, []byte{})
+				if hasS {
+					err, did = b.Put([]byte{'S'}, []byte{}), true
+				}
 			case "del-I":
-				err = b.Delete([]byte{'I'})
+				if hasI {
+					err, did = b.Delete([]byte{'I'}), true
+				}
 			case "I-0", "I-1", "I-2", "I-3", "I-5", "I-8":
-				n := int(k[2] - '0')
-				err = b.Put([]byte{'I'}, bytes.Repeat([]byte{0x00}, n))
+				if hasI {
+					n := int(k[2] - '0')
+					err, did = b.Put([]byte{'I'}, bytes.Repeat([]byte{0x00}, n)), true
+				}
 			case "V-garbage":
 				if key := firstV(); key != nil {
-					err = b.Put(key, []byte{0xde, 0xad, 0xbe, 0xef, 0x00, 0x01, 0x02})
+					err, did = b.Put(key, []byte{0xde, 0xad, 0xbe, 0xef, 0x00, 0x01, 0x02}), true
 				}
 			case "V-trunc":
 				if key := firstV(); key != nil {
 					v := b.Get(key)
 					if len(v) > 2 {
-						err = b.Put(key, append([]byte(nil), v[:len(v)/2]...))
+						err, did = b.Put(key, append([]byte(nil), v[:len(v)/2]...)), true
 					}
 				}
 			case "V-empty":
 				if key := firstV(); key != nil {
-					err = b.Put(key, []byte{})
+					err, did = b.Put(key, []byte{}), true
 				}
 			case "X-unknown-key":
-				err = b.Put([]byte("Zunknown"), []byte("x"))
+				err, did = b.Put([]byte("Zunknown"), []byte("x")), true
 			case "X-short-V-key":
-				err = b.Put([]byte("Vab"), []byte("x"))
+				err, did = b.Put([]byte("Vab"), []byte("x")), true
 			case "X-long-V-key":
-				err = b.Put([]byte("V0123456789ab"), []byte{})
+				err, did = b.Put([]byte("V0123456789ab"), []byte{}), true
 			}
 			if err != nil {
 				return err
 			}
+			if did {
+				applied = append(applied, k)
+			}
 		}
 		return nil
 	})
+	return applied, err
+}
+
+// mustRejectByKind: the damages the statement says make a file "not a complete index".
+func mustRejectByKind(applied []string) (bool, string) {
+	for _, k := range applied {
+		switch k {
+		case "del-bucket", "del-S", "S-garbage", "S-trunc", "S-empty", "del-I", "I-0", "I-1", "I-2", "I-3", "I-5", "I-8":
+			return true, "damage " + k
+		}
+	}
+	return false, ""
 }
 
 // inspect reads the (possibly damaged) file and says what the statement demands of an open.
@@ -247,9 +279,11 @@ func runC15(c *Ctx, body json.RawMessage) *Verdict {
 	}
 	d := simrt.NewDisk()
 	isFile := true
+	var applied []string
 	switch cs.Special {
 	case "":
-		if err := applyDamage(paths[0], cs.Damage); err != nil {
+		var err error
+		if applied, err = applyDamage(paths[0], cs.Damage); err != nil {
 			return v.Harness("damage: %v", err)
 		}
 	case "empty-bbolt":
@@ -281,8 +315,16 @@ func runC15(c *Ctx, body json.RawMessage) *Verdict {
 	}
 	mustErr, mustErrPre, why := false, false, ""
 	switch cs.Special {
-	case "", "empty-bbolt":
-		mustErr, mustErrPre, why = inspect(paths[0])
+	case "":
+		// what must be rejected follows from the damages that were actually applied; only
+		// "an undecodable bitmap" is judged from the content (by roaring itself)
+		var w2 string
+		_, mustErrPre, w2 = inspect(paths[0])
+		mustErr, why = mustRejectByKind(applied)
+		mustErrPre = mustErr || (mustErrPre && strings.Contains(w2, "undecodable bitmap"))
+		why += " " + w2
+	case "empty-bbolt":
+		mustErr, mustErrPre, why = true, true, "bbolt file without data bucket"
 	default:
 		mustErr, mustErrPre, why = true, true, cs.Special
 		if cs.Special == "garbage" || cs.Special == "zero-byte" {
@@ -290,7 +332,7 @@ func runC15(c *Ctx, body json.RawMessage) *Verdict {
 			mustErr, mustErrPre = false, false
 		}
 	}
-	for _, k := range cs.Damage {
+	for _, k := range applied {
 		v.Count("fault_damage_"+k, 1)
 	}
 	if cs.Special != "" {
